@@ -82,6 +82,10 @@ class C19(Check):
                 if not log:
                     continue
                 text1 = a.text()
+                if findings.valueref_at_foreign_ref(a):
+                    # known finding valueref-at-foreign-ref: excluded by construction, counted
+                    rec.cls('excluded-by-known-finding:valueref-at-foreign-ref')
+                    continue
                 if findings.components_of_foreign_refs(a):
                     # known finding components-of-foreign-refs: excluded by construction, counted
                     rec.cls('excluded-by-known-finding:components-of-foreign-refs')
